@@ -165,6 +165,14 @@ let dispatch name =
     plist pqlist (Exec.q_extrude_cps dim rat am prof)
   | "circle_net" -> let which = rint () in let s2 = rq () in
     plist pqlist (if which = 2 then Exec.q_circle_net_p2C0 s2 else Exec.q_circle_net_p4C1 s2)
+  | "curve_interpolate" -> let tol = rq () in let b = rbasis () in let ts = rqlist () in let x = rlist rqlist in
+    pres (fun o -> plist pqlist o.Obj.o_cps) (Exec.q_curve_interpolate tol b ts x)
+  | "curve_lsq" -> let tol = rq () in let b = rbasis () in let ts = rqlist () in let x = rlist rqlist in
+    pres (fun o -> plist pqlist o.Obj.o_cps) (Exec.q_curve_lsq tol b ts x)
+  | "cubic_curve" -> let tol = rq () in let bt = rnat () in let ts = rqlist () in let x = rlist rqlist in let tg = rlist rqlist in
+    pres (fun o -> (match o.Obj.o_bases with b :: _ -> pqlist b.Obj.b_knots | [] -> pint 0); plist pqlist o.Obj.o_cps) (Exec.q_cubic_curve tol bt ts x tg)
+  | "surface_interpolate" -> let tol = rq () in let bu = rbasis () in let bv = rbasis () in let us = rqlist () in let vs = rqlist () in
+    let x = rlist rqlist in pres (fun o -> plist pqlist o.Obj.o_cps) (Exec.q_surface_interpolate tol bu bv us vs x)
   | _ -> out ("UNKNOWN " ^ name)
 
 let () =
